@@ -103,6 +103,26 @@ def gen_doc(rng, path):
         rule.setVariable(var); rule.setMath(libsbml.parseL3Formula(math))
         desc["rules"].append({"kind": kd, "var": var, "math": math})
     libsbml.writeSBMLToFile(doc, path)
+    if rng.chance(1, 4):
+        # libsbml's setters keep only one of the two initial attributes; files written by other tools carry both: add an
+        # initialConcentration next to some initialAmount attributes in the text (a non-zero amount takes precedence)
+        txt = open(path).read()
+        for sp_ in desc["species"]:
+            if sp_["amount"] is not None and rng.chance(1, 2):
+                if sp_["amount"] != 0 and rng.chance(1, 2):
+                    sp_["amount"] = rng.choice([2e-9, 5e-12, 1.5e-6])        # amounts in mole are small numbers
+                conc = float(rng.randint(1, 9))
+                tag = 'id="%s"' % sp_["id"]
+                i0 = txt.index("<species ", 0)
+                pos = txt.index(tag)
+                end = txt.index(">", pos)
+                seg = txt[pos:end]
+                import re as _re
+                seg = _re.sub(r'initialAmount="[^"]*"', 'initialAmount="%r" initialConcentration="%r"' % (sp_["amount"], conc), seg)
+                txt = txt[:pos] + seg + txt[end:]
+                sp_["conc"] = conc
+        open(path, "w").write(txt)
+        desc["both_attributes"] = True
     return desc
 
 
